@@ -572,7 +572,8 @@ def gen_config():
         body = out.split("DO NOT MODIFY", 1)[-1]
         call_line = [l for l in body.splitlines() if "choose_experiment_variant(" in l and "return" in l][0]
         if_line = [l for l in body.splitlines() if l.strip().startswith("if ")][0]
-        flags["strReprSalt"] = repr(s1) in call_line
+        # (the key may be built on the call line or on a line of its own: any line other than the `if` line)
+        flags["strReprSalt"] = repr(s1) in call_line or any(repr(s1) in l for l in body.splitlines() if not l.strip().startswith(("if ", "elif ")))
         flags["strReprTerm"] = repr(s1) in if_line
     except Exception:
         flags["strReprSalt"] = False
